@@ -55,7 +55,11 @@ def djb2 (key : Nat) (seed : Nat) : Nat :=
   let h0 := (seed + 5381) % 2 ^ 32
   (toString key).toUTF8.foldl (fun h ch => (((h <<< 5) + h) % 2 ^ 64) ^^^ ch.toNat) h0
 
-def leBytes (k n : Nat) : List UInt8 := (List.range n).map fun i => UInt8.ofNat ((k >>> (8 * i)) % 256)
+/-- the `klen`-byte image of key `k` the shims hash and compare: bytes 0..7 little-endian, byte `b ≥ 8` is byte
+`b % 8` of `k` XOR `(b*157+11)` (so keys longer than a word have non-trivial, non-palindromic blocks) -/
+def leBytes (k n : Nat) : List UInt8 := (List.range n).map fun i =>
+  if i < 8 then UInt8.ofNat ((k >>> (8 * i)) % 256)
+  else UInt8.ofNat ((((k >>> (8 * (i % 8))) % 256) ^^^ ((i * 157 + 11) % 256)) % 256)
 
 def hashFn (kind : String) (seed klen : Nat) : Nat → Nat :=
   match kind with
@@ -120,15 +124,38 @@ def fmtPid (pt : PHash.PTable) (p : Option Nat) : String :=
   | none => "-"
   | some id => if (pt.heap.get id).isSome then toString id else "x"
 
-def fmtTable (t : HashTable) (it : Option HIter) (pt : Option PHash.PTable := none) (pit : Option PHash.PIter := none) : String :=
-  let base := s!"cap={t.capacity} size={t.size} thr={t.threshold} ents={fmtEnts t}"
+/-- `phys=sum`: the word-wise FNV-style checksum the shims compute over the chains -/
+def sumStep (h x : UInt64) : UInt64 := (h ^^^ x) * 1099511628211
+def sum0 : UInt64 := 14695981039346656037
+def hex64 (x : UInt64) : String := String.ofList (Nat.toDigits 16 x.toNat)
+def sumEnts (t : HashTable) : UInt64 :=
+  let rec go (i : Nat) (bs : List (List Entry)) (h : UInt64) : UInt64 :=
+    match bs with
+    | [] => h
+    | ch :: rest => go (i + 1) rest (ch.foldl (fun h e =>
+        sumStep (sumStep (sumStep (sumStep h (UInt64.ofNat i)) (UInt64.ofNat (HT.encKey e.key))) (UInt64.ofNat e.value)) (UInt64.ofNat e.hash)) h)
+  go 0 (t.buckets.take t.capacity) sum0
+def sumPe (pt : PHash.PTable) : UInt64 :=
+  let rec go (i : Nat) (bs : List (Option Nat)) (h : UInt64) : UInt64 :=
+    match bs with
+    | [] => h
+    | p :: rest => go (i + 1) rest ((PHash.chainIds pt.heap pt.fresh p).1.foldl (fun h id =>
+        let e := PHash.nd pt.heap id
+        sumStep (sumStep (sumStep (sumStep h (UInt64.ofNat i)) (UInt64.ofNat id)) (UInt64.ofNat (HT.encKey e.key)))
+          (match e.next with | some n => UInt64.ofNat n | none => 0xffffffffffffffff)) h)
+  go 0 (pt.buckets.take pt.capacity) sum0
+
+def fmtTable (t : HashTable) (it : Option HIter) (pt : Option PHash.PTable := none) (pit : Option PHash.PIter := none)
+    (sum : Bool := false) : String :=
+  let base := s!"cap={t.capacity} size={t.size} thr={t.threshold} " ++
+    (if sum then s!"sum={hex64 (sumEnts t)}" else s!"ents={fmtEnts t}")
   let base := match it with
     | none => base
     | some i => base ++ s!" it={i.bucketIndex}/{fmtPtr t i.prev}/{fmtPtr t i.next}"
   match pt with
   | none => base
   | some pt =>
-    base ++ fmtPe pt ++ (match pit with
+    base ++ (if sum then s!" psum={hex64 (sumPe pt)}" else fmtPe pt) ++ (match pit with
       | none => ""
       | some i => s!" pit={i.bucketIndex}/{fmtPid pt i.prev}/{fmtPid pt i.next}")
 
@@ -164,12 +191,20 @@ def pstep (cfg : HCfg) (isSet : Bool) (pm : Option PHash.PTable) (pit : Option P
     match c.op with
     | "add" =>
       let r := t.add cfg (key (c.arg 0)) (if isSet then 1 else c.arg 1) m
-      (some r.2.1, none, some r.2.2)
+      -- a live iterator survives an insertion unless it rehashes
+      (some r.2.1, if r.2.1.capacity == t.capacity then pit else none, some r.2.2)
     | "get" => (some t, pit, some (t.get cfg (key (c.arg 0)) m).2.2)
     | "contains_key" | "contains" => (some t, pit, some (t.containsKey cfg (key (c.arg 0)) m).2)
     | "remove" =>
       let r := t.remove cfg (key (c.arg 0)) m
-      (some r.2.2.1, none, some r.2.2.2)
+      -- … and a removal unless it frees the entry `prev_entry` / `next_entry` points to
+      let names (p : Option Nat) : Bool := match p with
+        | some id => (PHash.nd t.heap id).key == key (c.arg 0)
+        | none => false
+      let pit' := match pit with
+        | some i => if names i.prev || names i.next then none else some i
+        | none => none
+      (some r.2.2.1, pit', some r.2.2.2)
     | "remove_all" =>
       let r := t.removeAll m
       (some r.1, none, some r.2)
@@ -190,15 +225,36 @@ def pstep (cfg : HCfg) (isSet : Bool) (pm : Option PHash.PTable) (pit : Option P
         (some r.2.2.1, some r.2.2.2.1, some r.2.2.2.2)
     | _ => (some t, pit, none)
 
+/-- the representation invariant `HashTable.Inv` evaluated bucket by bucket in one pass (the `Decidable` instance of
+`Inv` indexes the bucket list once per slot, which is quadratic in the capacity); used on the `observe` lines of
+`phys=sum` sessions, where tables have thousands of slots -/
+def invFast (c : HCfg) (t : HashTable) : Bool :=
+  let rec chains (i : Nat) (bs : List (List Entry)) : Bool :=
+    match bs with
+    | [] => true
+    | ch :: rest => ch.all (fun e => e.hash == HT.keyHash c e.key && e.hash % t.capacity == i) && chains (i + 1) rest
+  (List.range 32).any (fun k => t.capacity == 2 ^ k) && t.buckets.length == t.capacity &&
+  t.size == t.buckets.flatten.length && chains 0 t.buckets &&
+  decide ((t.buckets.flatten.map (·.key)).Nodup) && t.threshold == c.thr t.capacity
+
+/-- execution aid: the model's heap is a function and every update wraps it in one more closure; after each command
+the driver re-tabulates it over the ids handed out so far (`id < fresh`; no id at or above `fresh` is live), so a
+look-up stays O(1) in long sessions.  The tabulated heap answers every `get` below `fresh` exactly as before (and
+`none` from `fresh` on, where the allocation counter has not been yet). -/
+def compactHeap (pt : PHash.PTable) : PHash.PTable :=
+  let arr := (Array.range pt.fresh).map (fun i => pt.heap.get i)
+  { pt with heap := ⟨fun j => arr.getD j none⟩ }
+
 /-- does the pointer-level model agree with the bucket-list model? (shape, content read off the heap,
 iterator, ledger) -/
 def pAgree (t : Option HashTable) (it : Option HIter) (pm : Option PHash.PTable) (pit : Option PHash.PIter)
-    (pmem : Option Mem) (mem : Mem) : Bool :=
+    (pmem : Option Mem) (mem : Mem) (full : Bool := true) : Bool :=
   (match pmem with | none => true | some pm' => decide (pm' = mem)) &&
   (match t, pm with
    | none, none => true
    | some t, some pt =>
-     pt.shapeOk && decide (pt.toTable = t) &&
+     (if full then pt.shapeOk && decide (pt.toTable = t)
+      else pt.capacity == t.capacity && pt.size == t.size && pt.threshold == t.threshold) &&
      (match it, pit with
       | none, none => true
       | some i, some pi => decide (pt.toIter pi = i)
@@ -239,6 +295,11 @@ structure Sess where
   /-- `obs=sparse`: content is printed only by the `observe` op; `quiet` = this line prints none -/
   sparse : Bool := false
   quiet  : Bool := false
+  /-- `phys=sum`: the chains are printed as checksums except on `observe`; `sumLine` = this line does so -/
+  physSum : Bool := false
+  sumLine : Bool := false
+  /-- keys inserted through the table while the iterator session is open: the iterator may or may not reach them -/
+  smaybe : List Spec.Key := []
 
 def obsM (s : Sess) : String :=
   if s.quiet then "" else
@@ -253,11 +314,17 @@ def obsS (s : Sess) : String :=
 def physM (s : Sess) (ord : Option (List Nat)) : String :=
   (match s.model with
    | none => "-"
-   | some t => fmtTable t s.iter s.pmodel s.piter) ++ fmtDarrPhys s.darr ++
+   | some t => fmtTable t s.iter s.pmodel s.piter s.sumLine) ++ fmtDarrPhys s.darr ++
   (match ord with | none => "" | some l => s!" ord={fmtList l}")
 def invM (s : Sess) : Bool :=
-  (match s.model with | none => true | some t => decide (t.Inv s.cfg)) && s.darr.all (fun d => decide d.2.Inv) &&
-  pAgree s.model s.iter s.pmodel s.piter s.pmem s.mem
+  -- on checksum lines of a `phys=sum` session only the cheap part is evaluated (the full invariant and the full
+  -- comparison of the heap with the bucket lists are quadratic); every `observe` line evaluates everything
+  (match s.model with
+   | none => true
+   | some t => if s.sumLine then decide (t.buckets.length = t.capacity) else if s.physSum then invFast s.cfg t
+               else decide (t.Inv s.cfg)) &&
+  s.darr.all (fun d => decide d.2.Inv) &&
+  pAgree s.model s.iter s.pmodel s.piter s.pmem s.mem (!s.sumLine)
 
 def lines (s : Sess) (hdS hdM : String) (ord : Option (List Nat) := none) : Sess × String × String :=
   (s, s!"S {hdS} {obsS s}", s!"M {hdM} {obsM s} | {physM s ord} | {fmtMem s.mem} | {fmtFlags (invM s) s.mem}")
@@ -274,7 +341,9 @@ def step (s : Sess) (c : Cmd) : Sess × String × String :=
   let pcfg := if c.op == "new" then mkCfg c else if c.op == "new_default" then defaultCfg else s.cfg
   let (pm, pit, pmem) := pstep pcfg false s.pmodel s.piter c m
   let pmem := if c.op == "destroy" then pmem.map (fun m => s.darr.foldl (fun m d => d.2.destroy m) m) else pmem
-  let s := { s with sparse := sparse, quiet := sparse && c.op != "observe", pmodel := pm, piter := pit, pmem := pmem }
+  let physSum := if isNew then c.str "phys" == some "sum" else s.physSum
+  let s := { s with sparse := sparse, quiet := sparse && c.op != "observe", pmodel := pm.map compactHeap, piter := pit, pmem := pmem,
+                    physSum := physSum, sumLine := physSum && c.op != "observe" }
   let slot := slotOf c
   match c.op with
   | "new" | "new_default" =>
@@ -282,7 +351,7 @@ def step (s : Sess) (c : Cmd) : Sess × String × String :=
     let cap := if c.op == "new" then c.nat "cap" 16 else Gen.HASHTABLE_DEFAULT_CAPACITY
     let (st, t, m) := HashTable.new cfg cap (if c.op == "new" then .conf else .libc) m
     let (sst, sp) := if c.fired > 0 then (Stat.errAlloc, none) else (Stat.ok, some Spec.Map.empty)
-    lines { cfg := cfg, model := t, spec := sp, mem := m, darr := s.darr, sdarr := s.sdarr, sparse := s.sparse, quiet := s.quiet, pmodel := s.pmodel, piter := s.piter, pmem := s.pmem } (fmtStat sst) (fmtStat st)
+    lines { cfg := cfg, model := t, spec := sp, mem := m, darr := s.darr, sdarr := s.sdarr, sparse := s.sparse, quiet := s.quiet, pmodel := s.pmodel, piter := s.piter, pmem := s.pmem, physSum := s.physSum, sumLine := s.sumLine } (fmtStat sst) (fmtStat st)
   | "arr_add" | "arr_destroy" =>
     match s.darr.find? (·.1 == slot), s.sdarr.find? (·.1 == slot) with
     | some (_, a), some (_, l) =>
@@ -296,7 +365,7 @@ def step (s : Sess) (c : Cmd) : Sess × String × String :=
   | "destroy" =>
     let m := match s.model with | some t => t.destroy m | none => m
     let m := s.darr.foldl (fun m d => d.2.destroy m) m
-    lines { cfg := s.cfg, mem := m, sparse := s.sparse, quiet := s.quiet, pmodel := s.pmodel, piter := s.piter, pmem := s.pmem } "st=-" "st=-"
+    lines { cfg := s.cfg, mem := m, sparse := s.sparse, quiet := s.quiet, pmodel := s.pmodel, piter := s.piter, pmem := s.pmem, physSum := s.physSum, sumLine := s.sumLine } "st=-" "st=-"
   | _ =>
   match s.model, s.spec with
   | some t, some sp =>
@@ -305,7 +374,11 @@ def step (s : Sess) (c : Cmd) : Sess × String × String :=
       let k := key (c.arg 0)
       let (st, t', m) := t.add s.cfg k (c.arg 1) m
       let (sout, sp') := Spec.Map.step sp (.add k (c.arg 1)) (if c.fired > 0 then some .errAlloc else none)
-      lines { s with model := some t', spec := some sp', iter := none, mem := m } (fmtStat (sout.st.getD .ok)) (fmtStat st)
+      -- a live iterator survives an insertion unless it rehashes; whether it reaches a NEW key is unspecified
+      let keep := t'.capacity == t.capacity
+      let maybe := if sout.st == some .ok && !Spec.Map.contains sp k then k :: s.smaybe else s.smaybe
+      lines { s with model := some t', spec := some sp', iter := if keep then s.iter else none, smaybe := maybe, mem := m }
+        (fmtStat (sout.st.getD .ok)) (fmtStat st)
     | "get" =>
       let (st, out, m) := t.get s.cfg (key (c.arg 0)) m
       let (sout, _) := Spec.Map.step sp (.get (key (c.arg 0))) none
@@ -318,7 +391,12 @@ def step (s : Sess) (c : Cmd) : Sess × String × String :=
       let noout := c.nat "noout" 0 != 0
       let (st, out, t', m) := t.remove s.cfg (key (c.arg 0)) m
       let (sout, sp') := Spec.Map.step sp (.remove (key (c.arg 0))) none
-      lines { s with model := some t', spec := some sp', iter := none, mem := m }
+      -- … and a removal unless it frees the entry `prev_entry` / `next_entry` points to
+      let k := key (c.arg 0)
+      let it' := match s.iter with
+        | some i => if i.prev == some k || i.next == some k then none else some i
+        | none => none
+      lines { s with model := some t', spec := some sp', iter := it', stodo := s.stodo.erase k, smaybe := s.smaybe.erase k, mem := m }
         (hdOut (sout.st.getD .ok) (if noout then none else sout.val)) (hdOut st (if noout then none else out))
     | "remove_all" =>
       let (t', m) := t.removeAll m
@@ -344,7 +422,7 @@ def step (s : Sess) (c : Cmd) : Sess × String × String :=
         lines s' (fmtStat sst) (fmtStat st)
     | "it_new" =>
       let (it, m) := t.iterInit m
-      lines { s with iter := some it, stodo := Spec.Map.keys sp, slast := none, mem := m } "st=-" "st=-"
+      lines { s with iter := some it, stodo := Spec.Map.keys sp, smaybe := [], slast := none, mem := m } "st=-" "st=-"
     | "it_next" =>
       match s.iter with
       | none => lines { s with mem := m } "st=- noiter" "st=- noiter"
@@ -353,15 +431,16 @@ def step (s : Sess) (c : Cmd) : Sess × String × String :=
         let hdM := match e with | some e => s!"{fmtStat st} k={HT.encKey e.key} v={e.value}" | none => fmtStat st
         -- ideal cursor: END exactly when nothing is left; otherwise it yields *some* pending entry —
         -- the model's choice is taken as the witness and checked to be a pending entry of the map
-        let (hdS, todo, last) :=
-          if s.stodo.isEmpty then (fmtStat .iterEnd, s.stodo, s.slast) else
+        let (hdS, todo, maybe, last) :=
           match e with
           | some e =>
-            if s.stodo.contains e.key && Spec.Map.lookup sp e.key == some e.value then
-              (s!"{fmtStat .ok} k={HT.encKey e.key} v={e.value}", s.stodo.erase e.key, some e.key)
-            else (s!"{fmtStat .ok} k=not-pending", s.stodo, s.slast)
-          | none => (s!"{fmtStat .ok} k=pending-entries-left", s.stodo, s.slast)
-        lines { s with iter := some it', stodo := todo, slast := last, mem := m } hdS hdM
+            if (s.stodo.contains e.key || s.smaybe.contains e.key) && Spec.Map.lookup sp e.key == some e.value then
+              (s!"{fmtStat .ok} k={HT.encKey e.key} v={e.value}", s.stodo.erase e.key, s.smaybe.erase e.key, some e.key)
+            else (s!"{fmtStat .ok} k=not-pending", s.stodo, s.smaybe, s.slast)
+          | none =>
+            if s.stodo.isEmpty then (fmtStat .iterEnd, s.stodo, s.smaybe, s.slast)
+            else (s!"{fmtStat .ok} k=pending-entries-left", s.stodo, s.smaybe, s.slast)
+        lines { s with iter := some it', stodo := todo, smaybe := maybe, slast := last, mem := m } hdS hdM
     | "it_remove" =>
       match s.iter with
       | some it =>
